@@ -297,6 +297,12 @@ func (x *Exec) callStatic0(fr *Frame, st *State, fn *ssa.Function, args, bind []
 		if fr.depth+1 > x.maxDepth {
 			failf("inlining depth exceeded at %s", fn.Name())
 		}
+		if c == nil && fn.Parent() == nil {
+			if x.fitHelpers == nil {
+				x.fitHelpers = map[string]bool{}
+			}
+			x.fitHelpers[funcDisplayName(fn)] = true
+		}
 		out, vals := x.execFunction(fn, st, args, bind, nil, false, fr.depth+1)
 		g := st.guard
 		*st = *out
@@ -925,6 +931,15 @@ type VerifyResult struct {
 	Trusted     []string
 	Unmodelled  []string
 	Notes       []string
+	Fit         *FitInfo
+}
+
+// FitInfo describes the shape of a function that its contract's internal annotations (loop clauses keyed by
+// ordinal, clauses naming local variables, clauses about direct calls) were written for.
+type FitInfo struct {
+	Loops   []string          `json:"loops,omitempty"`   // kind of each loop, by ordinal
+	Helpers []string          `json:"helpers,omitempty"` // inlined repository functions that have no contract entry
+	Idents  map[string]string `json:"idents,omitempty"`  // contract identifier -> kind(s) of Go variable it names
 }
 
 // VerifyFunction symbolically executes fn against its contract and returns the obligations.
@@ -952,6 +967,20 @@ func (x *Exec) VerifyFunction(fn *ssa.Function, c *Contract) (res *VerifyResult)
 		}
 		sort.Strings(res.Unmodelled)
 		res.Notes = x.notes
+		fit := &FitInfo{Loops: x.fitLoops, Idents: map[string]string{}}
+		for h := range x.fitHelpers {
+			fit.Helpers = append(fit.Helpers, h)
+		}
+		sort.Strings(fit.Helpers)
+		for n, ks := range x.fitIdents {
+			var l []string
+			for k := range ks {
+				l = append(l, k)
+			}
+			sort.Strings(l)
+			fit.Idents[n] = strings.Join(l, "+")
+		}
+		res.Fit = fit
 	}()
 	x.root = fn
 	st := &State{guard: True, heap: map[string]*Term{}, cells: map[*Cell]*Value{}}
@@ -1011,8 +1040,10 @@ func (x *Exec) callSiteObligations(fr *Frame, st *State, fn *ssa.Function, name 
 	for _, cc := range x.rootFrame.contract.Calls {
 		callee := cc.Callee
 		if strings.HasSuffix(callee, "@root") {
-			// only calls made directly by the function under contract (not by inlined callees)
-			if fr != x.rootFrame {
+			// only calls made directly by the function under contract, not by inlined callees that carry a
+			// contract entry of their own (`inline`); a helper without any contract entry (one the contract's
+			// author never saw, e.g. a few lines extracted from this function later) counts as part of it
+			if fr != x.rootFrame && !x.onlyAnonymousHelpersAboveRoot() {
 				continue
 			}
 			callee = strings.TrimSuffix(callee, "@root")
@@ -1321,4 +1352,18 @@ func valueHasRefLeaf(v *Value) (has bool) {
 		}
 	}
 	return false
+}
+
+// onlyAnonymousHelpersAboveRoot: every function on the inlining stack above the function under contract is a
+// named function of the repository without any contract entry (closures are excluded: they have their own rules).
+func (x *Exec) onlyAnonymousHelpersAboveRoot() bool {
+	if len(x.stack) < 2 {
+		return false
+	}
+	for _, f := range x.stack[1:] {
+		if f.Parent() != nil || !x.inRepo(f) || x.contractFor(f) != nil {
+			return false
+		}
+	}
+	return true
 }
